@@ -316,9 +316,12 @@ func TestC10CheckRepair(t *testing.T) {
 		for i := range peers {
 			peers[i].Spec.At = 0 // a re-sync asks for one round: only the first streamed beacon matters
 			switch peers[i].Spec.Kind {
-			case LieSkip, LieRepeat, LieSwap:
-				// these send valid beacons of rounds that were not asked for: harmless to content, covered by the sync scenario
+			case LieRepeat, LieSwap:
+				// with a one-round request these are indistinguishable from an honest answer
 				peers[i].Spec.Kind = LieRefuse
+			case LieSkip:
+				// answers "from b" with b+1, b+2, ... (a peer with the same hole): valid beacons of rounds that were not asked for;
+				// rewriting them is harmless to content, but the round asked for is not restored by this peer
 			case LieWrongPrev:
 				// a group-signed beacon over a junk previous signature needs a colluding threshold: outside the statement
 				peers[i].Spec.Kind = LieBadSig
@@ -407,7 +410,9 @@ func TestC10CheckRepair(t *testing.T) {
 			}
 			// on the trimmed chained store the readability of r depends on r-1: becoming readable is not a content change
 			dependsOnPrev := chained && cfg.Backend == BackBoltTrimmed && r >= 2 && gotSet[r-1] && snapshot[r] == nil
-			if !bytes.Equal(now, snapshot[r]) && !gotSet[r] && !dependsOnPrev {
+			// a peer may stream valid beacons of rounds that were not asked for: restoring the true value of an unreported
+			// (e.g. beyond upTo) damaged round is harmless; changing a round to anything else is not
+			if !bytes.Equal(now, snapshot[r]) && !gotSet[r] && !dependsOnPrev && !bytes.Equal(now, net.TrueSig(r)) {
 				rec.Violation(rt, "C10/repair-touched-unreported-round", fmt.Sprintf("repair changed round %d which the check had not reported || case: %s", r, desc), nil)
 			}
 		}
